@@ -1,47 +1,139 @@
-(** C14 — the lock key determines the cache keys, except for range questions that differ in their lookback. *)
-From Coq Require Import List String Ascii Bool.
-From PintV Require Import Model.KeyLockKeys.
+(** C14 — soundness of the key-table criterion: when [table_ok] holds, two requests with the same cache key are
+    guarded by the same lock key (for all rows of the table, all values of the variables), and the side condition
+    of the transition system follows for every set of callers asking questions built from the table. *)
+From Coq Require Import List String Ascii Bool Lia.
+From PintV Require Import Common.Bytes Model.KeyLockKeys Model.KeyLock Proofs.C14_lts.
 Import ListNotations.
 Local Open Scope string_scope.
 
-Lemma app_inv_head_str (p a b : string) : p ++ a = p ++ b -> a = b.
-Proof. induction p; cbn; intros H; [exact H|]. injection H as H. auto. Qed.
-
-(** Questions that are not range queries: a shared cache key forces the same lock key. *)
-Lemma shared_cache_key_same_lock q1 q2 s1 s2 k :
-  is_range q1 = false -> is_range q2 = false ->
-  In k (cache_keys q1 s1) -> In k (cache_keys q2 s2) -> lock_key q1 = lock_key q2.
+Lemma comp_eqb_eq a b : comp_eqb a b = true -> a = b.
 Proof.
-  intros R1 R2 H1 H2.
-  destruct q1, q2; try discriminate; cbn in H1, H2;
-    destruct H1 as [<-|[]]; destruct H2 as [E|[]]; try discriminate E; try reflexivity.
-  - injection E as ->. reflexivity.
-  - injection E as ->. reflexivity.
+  destruct a as [la sa], b as [lb sb]. unfold comp_eqb. cbn [fst snd]. rewrite andb_true_iff.
+  intros [H1 H2]. apply eqb_prop in H1. apply String.eqb_eq in H2. congruence.
 Qed.
 
-(** A range question never shares a cache key with a question of another kind. *)
-Lemma range_disjoint_from_others q1 q2 s1 s2 k :
-  is_range q1 = true -> is_range q2 = false ->
-  In k (cache_keys q1 s1) -> In k (cache_keys q2 s2) -> False.
+Lemma comps_eqb_eq a b : comps_eqb a b = true -> a = b.
 Proof.
-  intros R1 R2 H1 H2. destruct q1; try discriminate. cbn in H1. apply in_map_iff in H1. destruct H1 as [s [<- _]].
-  destruct q2; try discriminate; cbn in H2; destruct H2 as [E|[]]; discriminate E.
+  revert b. induction a as [|x a IH]; intros [|y b]; cbn [comps_eqb]; try discriminate; auto.
+  rewrite andb_true_iff. intros [H1 H2]. apply comp_eqb_eq in H1. apply IH in H2. congruence.
 Qed.
 
-(** Two range questions sharing a slice have the same expression and step ... *)
-Lemma range_shared_slice e1 lb1 st1 e2 lb2 st2 s1 s2 k :
-  In k (cache_keys (QRange e1 lb1 st1) s1) -> In k (cache_keys (QRange e2 lb2 st2) s2) -> e1 = e2 /\ st1 = st2.
+(** different lengths or different literals at one position: the hashed lists differ whatever the variables are *)
+Lemma lits_differ_sound a b e1 e2 : lits_differ a b = true -> map (cval e1) a <> map (cval e2) b.
 Proof.
-  cbn. rewrite !in_map_iff. intros [a [<- _]] [b [E _]]. injection E as -> _ _ ->. split; reflexivity.
+  revert b. induction a as [|x a IH]; intros [|y b]; cbn [lits_differ map]; try discriminate.
+  rewrite orb_true_iff. intros [H|H] E; injection E as E1 E2.
+  - rewrite !andb_true_iff in H. destruct H as [[Hx Hy] Hn]. unfold cval in E1. rewrite Hx, Hy in E1.
+    apply negb_true_iff in Hn. apply String.eqb_neq in Hn. contradiction.
+  - exact (IH b H E2).
 Qed.
 
-(** ... so with the repaired key they hold the same lock. *)
-Lemma fixed_key_determines q1 q2 s1 s2 k :
-  In k (cache_keys q1 s1) -> In k (cache_keys q2 s2) -> lock_key_fixed q1 = lock_key_fixed q2.
+Lemma in_vars_of v l : In v (vars_of l) <-> In (false, v) l.
 Proof.
-  intros H1 H2. destruct (is_range q1) eqn:R1, (is_range q2) eqn:R2.
-  - destruct q1, q2; try discriminate. destruct (range_shared_slice _ _ _ _ _ _ _ _ _ H1 H2) as [-> ->]. reflexivity.
-  - exfalso. eapply range_disjoint_from_others; eauto.
-  - exfalso. eapply (range_disjoint_from_others q2 q1); eauto.
-  - destruct q1, q2; try discriminate; cbn [lock_key_fixed]; eapply shared_cache_key_same_lock; eauto.
+  unfold vars_of. rewrite in_map_iff. split.
+  - intros ([b s] & <- & H). apply filter_In in H. destruct H as [H Hb]. cbn in Hb. destruct b; [discriminate|exact H].
+  - intros H. exists (false, v). split; auto. apply filter_In. auto.
 Qed.
+
+(** equal hashed lists of ONE row: every variable of the row has the same value on both sides *)
+Lemma cache_eq_vars c e1 e2 : map (cval e1) c = map (cval e2) c -> forall v, In v (vars_of c) -> e1 v = e2 v.
+Proof.
+  induction c as [|[b s] c IH]; intros E v Hv; [destruct Hv|]. cbn [map] in E. injection E as E1 E2.
+  apply in_vars_of in Hv. destruct Hv as [Hv|Hv].
+  - injection Hv as -> ->. exact E1.
+  - apply IH; auto. now apply in_vars_of.
+Qed.
+
+Lemma vars_agree_map l e1 e2 : (forall v, In v (vars_of l) -> e1 v = e2 v) -> map (cval e1) l = map (cval e2) l.
+Proof.
+  induction l as [|[b s] l IH]; intros H; cbn [map]; auto. f_equal.
+  - unfold cval. cbn [fst snd]. destruct b; auto. apply H. apply in_vars_of. now left.
+  - apply IH. intros v Hv. apply H. apply in_vars_of. right. now apply in_vars_of.
+Qed.
+
+Lemma row_ok_spec r v : row_ok r = true -> In v (vars_of (kr_lock r)) -> In v (vars_of (kr_cache r)) /\ ~ In v slice_vars.
+Proof.
+  unfold row_ok. rewrite forallb_forall. intros H Hv. specialize (H v Hv). apply andb_true_iff in H. destruct H as [H1 H2].
+  split; [now apply mem_str_In|]. intros K. apply mem_str_In in K. rewrite K in H2. discriminate.
+Qed.
+
+(** ** the criterion is sound: a shared cache key implies the same lock key *)
+Lemma keys_sound t r1 r2 e1 e2 :
+  table_ok t = true -> In r1 t -> In r2 t ->
+  cache_val r1 e1 = cache_val r2 e2 -> lock_str r1 e1 = lock_str r2 e2.
+Proof.
+  unfold table_ok. rewrite forallb_forall. intros H H1 H2 E. specialize (H r1 H1). rewrite forallb_forall in H.
+  specialize (H r2 H2). unfold pair_ok in H. apply orb_true_iff in H. destruct H as [H|H].
+  - exfalso. exact (lits_differ_sound _ _ e1 e2 H E).
+  - apply andb_true_iff in H. destruct H as [Hs Hr]. unfold same_row in Hs. rewrite !andb_true_iff in Hs.
+    destruct Hs as [[Hsep Hl] Hc]. apply String.eqb_eq in Hsep. apply comps_eqb_eq in Hl. apply comps_eqb_eq in Hc.
+    unfold lock_str. rewrite <- Hsep, <- Hl. f_equal. apply vars_agree_map. intros v Hv.
+    destruct (row_ok_spec r1 v Hr Hv) as [Hin _]. unfold cache_val in E. rewrite <- Hc in E.
+    exact (cache_eq_vars _ _ _ E v Hin).
+Qed.
+
+(** the lock key of a row that is [row_ok] does not depend on the slice *)
+Lemma lock_str_with_slice r e sl : row_ok r = true -> lock_str r (with_slice e sl) = lock_str r e.
+Proof.
+  intros Hr. unfold lock_str. f_equal. apply vars_agree_map. intros v Hv.
+  destruct (row_ok_spec r v Hr Hv) as [_ Hn]. unfold with_slice, slice_vars in *.
+  destruct (String.eqb_spec v "slice_start") as [->|_]; [exfalso; apply Hn; now left|].
+  destruct (String.eqb_spec v "slice_end") as [->|_]; [exfalso; apply Hn; right; now left|]. reflexivity.
+Qed.
+
+Lemma table_ok_row_ok t r : table_ok t = true -> In r t -> row_ok r = true.
+Proof.
+  unfold table_ok. rewrite forallb_forall. intros H Hr. specialize (H r Hr). rewrite forallb_forall in H. specialize (H r Hr).
+  unfold pair_ok in H. apply orb_true_iff in H. destruct H as [H|H].
+  - exfalso. exact (lits_differ_sound _ _ (fun _ => "") (fun _ => "") H eq_refl).
+  - apply andb_true_iff in H. tauto.
+Qed.
+
+(* ---- from the table to the side condition of the transition system ------------------------------- *)
+
+(** a caller: one question = a row of the table, the values of its variables, and the slices it is cut into
+    (one pseudo-slice for questions that are not range queries) *)
+Record qcaller := mk_qcaller { qc_row : key_row; qc_env : env; qc_slices : list (string * string) }.
+
+Definition q_lock (c : qcaller) : string := lock_str (qc_row c) (qc_env c).
+Definition q_requests (c : qcaller) : list (list string) :=
+  map (fun sl => cache_val (qc_row c) (with_slice (qc_env c) sl)) (qc_slices c).
+
+Section SideCond.
+  Variable t : list key_row.
+  Variable callers : nat -> qcaller.
+  (** the transition system names keys by numbers: any injective numbering of lock-key strings / hashed lists *)
+  Variable encL : string -> nat.
+  Variable encC : list string -> nat.
+  Hypothesis encL_inj : forall a b, encL a = encL b -> a = b.
+  Hypothesis encC_inj : forall a b, encC a = encC b -> a = b.
+
+  Definition qconfig (pool : nat) : config :=
+    mk_config (fun c => encL (q_lock (callers c))) (fun c => map encC (q_requests (callers c))) pool.
+
+  Lemma NoDup_map_inj {A B} (f : A -> B) l : (forall a b, f a = f b -> a = b) -> NoDup l -> NoDup (map f l).
+  Proof.
+    intros Hf. induction 1 as [|x l Hx _ IH]; cbn [map]; constructor; auto.
+    intros H. apply in_map_iff in H. destruct H as (y & E & Hy). apply Hf in E. subst. contradiction.
+  Qed.
+
+  (** [side_cond] holds for callers asking questions of a table that satisfies the criterion, provided each
+      caller's own requests are pairwise different (its slices are distinct) *)
+  Lemma side_cond_from_table pool :
+    table_ok t = true ->
+    (forall c, In (qc_row (callers c)) t) ->
+    (forall c, NoDup (q_requests (callers c))) ->
+    side_cond (qconfig pool).
+  Proof.
+    intros Hok Hrow Hnd. constructor; cbn [jobs_of key_of qconfig].
+    - intros c. apply NoDup_map_inj; auto.
+    - intros c c' ck Hk H1 H2. apply Hk. f_equal.
+      apply in_map_iff in H1. destruct H1 as (k1 & <- & H1). apply in_map_iff in H2. destruct H2 as (k2 & E & H2).
+      apply encC_inj in E. subst k2. unfold q_requests in H1, H2.
+      apply in_map_iff in H1. destruct H1 as (s1 & E1 & _). apply in_map_iff in H2. destruct H2 as (s2 & E2 & _).
+      unfold q_lock.
+      rewrite <- (lock_str_with_slice (qc_row (callers c)) (qc_env (callers c)) s1) by (eapply table_ok_row_ok; eauto).
+      rewrite <- (lock_str_with_slice (qc_row (callers c')) (qc_env (callers c')) s2) by (eapply table_ok_row_ok; eauto).
+      apply (keys_sound t); auto. congruence.
+  Qed.
+End SideCond.
